@@ -758,18 +758,26 @@ use compio_driver::{DriverType, ProactorBuilder, ToSharedFd};
 use compio_runtime::Runtime;
 
 thread_local! {
-    static RTS: RefCell<[Option<Runtime>; 2]> = const { RefCell::new([None, None]) };
+    static RTS: RefCell<[Option<Runtime>; 3]> = const { RefCell::new([None, None, None]) };
 }
 
 fn with_rt<T>(iour: bool, f: impl FnOnce(&Runtime) -> T) -> Result<T, String> {
-    let idx = iour as usize;
+    with_rt_idx(iour as usize, f)
+}
+
+/// 0 = polling, 1 = io_uring, 2 = io_uring with a 2-entry ring (4-entry completion queue: a burst of
+/// connections overflows it and the multishot accept ends with a terminal successful completion)
+fn with_rt_idx<T>(idx: usize, f: impl FnOnce(&Runtime) -> T) -> Result<T, String> {
+    let iour = idx >= 1;
     let rt = RTS.with(|r| -> Result<Runtime, String> {
         let mut r = r.borrow_mut();
         if r[idx].is_none() {
             let mut pb = ProactorBuilder::new();
             // one pool thread: a second blocking job is accepted only after the first has finished, which
             // makes `pool_barrier` a real barrier
-            pb.driver_type(if iour { DriverType::IoUring } else { DriverType::Poll }).capacity(64).thread_pool_limit(1);
+            pb.driver_type(if iour { DriverType::IoUring } else { DriverType::Poll })
+                .capacity(if idx == 2 { 2 } else { 64 })
+                .thread_pool_limit(1);
             let rt = compio_runtime::RuntimeBuilder::new()
                 .with_proactor(pb)
                 .build()
@@ -1382,10 +1390,14 @@ struct ProdWorld<'a> {
     taken: Vec<Got>,
     wake_log: Arc<Mutex<Vec<usize>>>,
     waker: Waker,
+    /// io_uring with the 2-entry ring: only submit / connect / drain / drop / end
+    small: bool,
+    /// a descriptor-level monitor fired: tear down without dropping owners of aliased numbers
+    poisoned: bool,
 }
 
 impl<'a> ProdWorld<'a> {
-    fn new(rt: &'a Runtime, kind: &str) -> Option<Self> {
+    fn new(rt: &'a Runtime, kind: &str, small: bool) -> Option<Self> {
         let baseline = open_fds();
         let (listener, addr) = if kind == "accept" || kind == "multi" {
             let l = std::net::TcpListener::bind("127.0.0.1:0").unwrap();
@@ -1410,7 +1422,92 @@ impl<'a> ProdWorld<'a> {
             taken: vec![],
             wake_log,
             waker,
+            small,
+            poisoned: false,
         })
+    }
+
+    /// descriptor numbers owned by live values of the harness: (who, fd)
+    fn owned_fds(&self) -> Vec<(String, RawFd)> {
+        let mut v = vec![];
+        if let Some(l) = &self.listener {
+            v.push(("listener".to_string(), l.as_raw_fd()));
+        }
+        for (i, p) in self.peers.iter().enumerate() {
+            v.push((format!("peer{i}"), p.as_raw_fd()));
+        }
+        for (i, g) in self.taken.iter().enumerate() {
+            match g {
+                Got::Tcp(s) => v.push((format!("taken{i}"), s.as_raw_fd())),
+                Got::File(f) => v.push((format!("taken{i}"), f.as_raw_fd())),
+                Got::Sock(s) => v.push((format!("taken{i}"), s.as_raw_fd())),
+                Got::Pipe(r, s) => {
+                    v.push((format!("taken{i}r"), r.as_raw_fd()));
+                    v.push((format!("taken{i}w"), s.as_raw_fd()));
+                }
+            }
+        }
+        v
+    }
+
+    /// every live handle owns an open descriptor, and no two live handles own the same number
+    fn check_owners(&mut self, after: &str, ex: &mut Exec) {
+        let v = self.owned_fds();
+        for (who, fd) in &v {
+            if !fd_is_open(*fd) {
+                self.poisoned = true;
+                ex.fail("C06:closed-under-owner", format!("{}: after `{after}` descriptor {fd} of live {who} is closed", self.kind));
+            }
+        }
+        for i in 0..v.len() {
+            for j in i + 1..v.len() {
+                if v[i].1 == v[j].1 {
+                    self.poisoned = true;
+                    ex.fail(
+                        "C06:aliased-descriptor",
+                        format!("{}: after `{after}` live {} and {} both own descriptor {}", self.kind, v[i].0, v[j].0, v[i].1),
+                    );
+                }
+            }
+        }
+    }
+
+    /// accepted stream `i` is the peer's `i`-th connection: a tag written by the peer must come out of it
+    fn roundtrip(&mut self, ex: &mut Exec) {
+        use std::io::Write;
+        if self.listener.is_none() {
+            return;
+        }
+        let n = self.taken.len().min(self.peers.len());
+        for i in 0..n {
+            let tag = [b'A' + i as u8, b'a' + i as u8, b'0' + (i % 10) as u8];
+            if self.peers[i].write_all(&tag).is_err() {
+                continue;
+            }
+        }
+        std::thread::sleep(Duration::from_micros(300));
+        for i in 0..n {
+            let Got::Tcp(s) = &self.taken[i] else { continue };
+            let tag = [b'A' + i as u8, b'a' + i as u8, b'0' + (i % 10) as u8];
+            let mut buf = [0u8; 8];
+            let fd = s.as_raw_fd();
+            let mut got = -1isize;
+            for _ in 0..200 {
+                got = unsafe { libc::recv(fd, buf.as_mut_ptr().cast(), buf.len(), libc::MSG_DONTWAIT) };
+                if got >= 0 || std::io::Error::last_os_error().kind() != io::ErrorKind::WouldBlock {
+                    break;
+                }
+                std::thread::sleep(Duration::from_micros(100));
+            }
+            if got != 3 || buf[..3] != tag {
+                self.poisoned = true;
+                let err = if got < 0 { format!(" ({})", std::io::Error::last_os_error()) } else { String::new() };
+                ex.fail(
+                    "C06:accepted-stream-roundtrip",
+                    format!("{}: accepted stream {i} (fd {fd}) did not deliver its peer's tag {:?}: recv = {got}{err}, data {:?}", self.kind, tag, &buf[..got.max(0) as usize]),
+                );
+            }
+        }
     }
 
     fn make(&mut self) {
@@ -1512,10 +1609,27 @@ impl<'a> ProdWorld<'a> {
             }
             "connect" => {
                 let addr = self.addr?;
-                if self.peers.len() >= 4 {
+                if self.peers.len() >= if self.small { 16 } else { 4 } {
                     return None;
                 }
                 self.peers.push(std::net::TcpStream::connect(addr).unwrap());
+            }
+            "settle" | "poll" if self.small => return None,
+            "drain" => {
+                // accept everything that has connected: drive + poll_next until all are in, then once more (Pending)
+                if !self.small || !self.submitted || !matches!(self.pending, Pending_::Stream(_)) {
+                    return None;
+                }
+                let want = self.peers.len();
+                let t0 = std::time::Instant::now();
+                while self.taken.len() < want && t0.elapsed() < Duration::from_secs(2) {
+                    drive(self.rt);
+                    while self.poll_once(ex) == "ready-ok" {}
+                }
+                drive(self.rt);
+                while self.poll_once(ex) == "ready-ok" {}
+                settle(self.rt, Duration::from_micros(300), || false);
+                x = self.unexplained().to_string();
             }
             "settle" => {
                 // drive until the future's task has been woken (completion delivered) or nothing is expected
@@ -1548,11 +1662,38 @@ impl<'a> ProdWorld<'a> {
             }
             _ => return None,
         }
+        self.check_owners(&w.join(" "), ex);
         Some(format!("ok r={} taken={} x={}", r, self.taken.len(), x))
     }
 
     fn end(mut self, ex: &mut Exec) -> String {
         let cancelled_blocking = matches!(self.kind.as_str(), "open" | "socket" | "pipe") && self.submitted;
+        self.check_owners("end", ex);
+        if !self.poisoned {
+            self.roundtrip(ex);
+        }
+        if self.poisoned {
+            // two owners of one number (or an owner of a closed one): dropping them would close a number
+            // twice (std aborts the process on that). Forget the owners, close each number once by hand.
+            let mut fds: Vec<RawFd> = self.owned_fds().into_iter().map(|(_, fd)| fd).collect();
+            fds.sort();
+            fds.dedup();
+            std::mem::forget(std::mem::replace(&mut self.pending, Pending_::None));
+            std::mem::forget(std::mem::take(&mut self.taken));
+            std::mem::forget(std::mem::take(&mut self.peers));
+            std::mem::forget(self.listener.take());
+            for fd in fds {
+                unsafe { libc::close(fd) };
+            }
+            settle(self.rt, Duration::from_millis(2), || false);
+            // whatever the forgotten values still pinned (queued descriptors, ...) is closed by number
+            for fd in open_fds() {
+                if !self.baseline.contains(&fd) {
+                    unsafe { libc::close(fd) };
+                }
+            }
+            return "leak=poisoned".into();
+        }
         self.pending = Pending_::None;
         self.taken.clear();
         self.peers.clear();
@@ -1577,11 +1718,16 @@ impl<'a> ProdWorld<'a> {
     }
 }
 
-fn exec_prod(case: &Case, iour: bool, kind: &str, ex: &mut Exec) {
-    let r = with_rt(iour, |rt| {
+fn exec_prod(case: &Case, drv: &str, kind: &str, ex: &mut Exec) {
+    let idx = match drv {
+        "poll" => 0,
+        "iour" => 1,
+        _ => 2,
+    };
+    let r = with_rt_idx(idx, |rt| {
         // let stragglers of earlier cases finish
         settle(rt, Duration::from_micros(200), || false);
-        let Some(w) = (if kind == "multi" && !iour { None } else { ProdWorld::new(rt, kind) }) else {
+        let Some(w) = (if idx == 2 && kind != "multi" { None } else { ProdWorld::new(rt, kind, idx == 2) }) else {
             for _ in &case.lines {
                 ex.out.push("bad-op".into());
             }
@@ -1612,7 +1758,7 @@ fn exec_prod(case: &Case, iour: bool, kind: &str, ex: &mut Exec) {
         if let Some(w) = world.take() {
             w.end(ex);
         }
-        ex.tag(format!("prod-{}-{}", if iour { "iour" } else { "poll" }, kind));
+        ex.tag(format!("prod-{}-{}", drv, kind));
         ex.tag(format!("prodseq-{}", kinds.join(">")));
         ex.nontrivial = true;
     });
@@ -1825,9 +1971,6 @@ fn generate(tier: &str, rng: &mut Rng) -> Vec<Case> {
     // ---- prod programs: every sequence over the kind's alphabet up to a depth, then `end` ----
     for drv in ["iour", "poll"] {
         for kind in ["accept", "multi", "open", "socket", "pipe"] {
-            if kind == "multi" && drv == "poll" {
-                continue;
-            }
             let alpha: &[&str] = if kind == "accept" || kind == "multi" {
                 &["submit", "connect", "settle", "poll", "drop"]
             } else {
@@ -1847,6 +1990,40 @@ fn generate(tier: &str, rng: &mut Rng) -> Vec<Case> {
                 lines.push("end".into());
                 cases.push(Case { name: format!("prod-{drv}-{kind}-{i}"), lines });
             }
+        }
+    }
+    // ---- incoming(): polling driver = every accept is a terminal success; io_uring with a 2-entry ring =
+    //      a burst overflows the completion queue and the multishot accept ends with a terminal success
+    for (j, prog) in [
+        vec!["connect", "connect", "connect", "connect", "submit", "poll", "poll", "poll", "poll", "drop"],
+        vec!["submit", "connect", "settle", "poll", "connect", "poll", "settle", "poll", "connect", "connect", "settle", "poll", "poll", "poll"],
+        vec!["connect", "submit", "connect", "settle", "poll", "drop"],
+    ]
+    .iter()
+    .enumerate()
+    {
+        let mut lines = vec!["prod poll multi".to_string()];
+        lines.extend(prog.iter().map(|s| s.to_string()));
+        lines.push("end".into());
+        cases.push(Case { name: format!("incoming-poll-{j}"), lines });
+    }
+    let bursts: &[&[usize]] = if quick { &[&[12], &[6, 1], &[13, 3]] } else { &[&[12], &[6, 1], &[13, 3], &[1], &[3, 3, 3], &[16], &[8, 8], &[5], &[2, 10]] };
+    for (j, b) in bursts.iter().enumerate() {
+        for tail in ["drain", "drop"] {
+            let mut lines = vec!["prod iour2 multi".to_string(), "submit".to_string()];
+            for (i, n) in b.iter().enumerate() {
+                for _ in 0..*n {
+                    lines.push("connect".into());
+                }
+                if i + 1 < b.len() || tail == "drain" {
+                    lines.push("drain".into());
+                }
+            }
+            if tail == "drop" {
+                lines.push("drop".into());
+            }
+            lines.push("end".into());
+            cases.push(Case { name: format!("incoming-burst-{j}-{tail}"), lines });
         }
     }
     for k in ["socket", "accept", "open"] {
@@ -2058,7 +2235,7 @@ fn exec_inner(case: &Case, head: &[&str], ex: &mut Exec) {
         ["sfd", "unsync"] => exec_sfd::<compio_driver::SharedFd<Tracked>>(case, false, ex),
         ["sfd", "sync"] => exec_sfd::<fd_sync::SharedFd<Tracked>>(case, true, ex),
         ["rt", d @ ("iour" | "poll"), kind] => exec_rt(case, *d == "iour", kind, ex),
-        ["prod", d @ ("iour" | "poll"), kind] => exec_prod(case, *d == "iour", kind, ex),
+        ["prod", d @ ("iour" | "poll" | "iour2"), kind] => exec_prod(case, d, kind, ex),
         ["fallback", ..] => {
             exec_fallback(case, ex);
             pad(ex);
